@@ -4,7 +4,7 @@ cd "$(dirname "$0")/.."
 TIER=${1:-quick}
 for p in $(python3 -c "import json;print(' '.join(c['property_id'] for c in json.load(open('MANIFEST.json'))['checks']))"); do
   s=$(date +%s)
-  /venv/bin/python run_check.py $p --tier $TIER > /tmp/runall-$p.out 2> /tmp/runall-$p.err; rc=$?
+  /venv/bin/python run_check.py $p --tier $TIER > ${TMPDIR:-/tmp}/runall-$TIER-$p.out 2> ${TMPDIR:-/tmp}/runall-$TIER-$p.err; rc=$?
   e=$(date +%s)
-  echo "$p exit=$rc $((e-s))s $(grep -c '^VIOLATION' /tmp/runall-$p.out) viol $(grep -c '^KNOWN' /tmp/runall-$p.out) known | $(grep '^\[C' /tmp/runall-$p.err | cut -c1-110)"
+  echo "$p exit=$rc $((e-s))s $(grep -c '^VIOLATION' ${TMPDIR:-/tmp}/runall-$TIER-$p.out) viol $(grep -c '^KNOWN' ${TMPDIR:-/tmp}/runall-$TIER-$p.out) known | $(grep '^\[C' ${TMPDIR:-/tmp}/runall-$TIER-$p.err | cut -c1-110)"
 done
